@@ -18,6 +18,20 @@ THEOREMS = {
         "modules": ["Abnf.Theorems.C07"],
         "theorems": ["Abnf.C07.parse_order_independent", "Abnf.C07.parse_all_order_independent", "Abnf.C07.listed_ends_distinct"],
     },
+    "C08": {
+        "modules": ["Abnf.Theorems.C08"],
+        "theorems": ["Abnf.C08.request_transparent", "Abnf.C08.cache_transparent", "Abnf.C08.fresh_caches_sound",
+                     "Abnf.lparseC_sand", "Abnf.lparse_mono", "Abnf.lruOps_sound'"],
+    },
+    "C13": {
+        "modules": ["Abnf.Theorems.C13"],
+        "theorems": ["Abnf.C13.fresh_after_mutation", "Abnf.C13.genOk_reachable", "Abnf.linv_after_bump"],
+    },
+    "C17": {
+        "modules": ["Abnf.Theorems.C17"],
+        "theorems": ["Abnf.C17.interference_safe", "Abnf.C17.interference_safe_lru", "Abnf.C17.request_is_admissible_interference",
+                     "Abnf.advOps_sound"],
+    },
     "C10": {
         "modules": ["Abnf.Theorems.C10"],
         "theorems": ["Abnf.C10.lookup_idempotent", "Abnf.C10.lookup_case_insensitive", "Abnf.C10.resolve_own_or_core", "Abnf.C10.isolation"],
